@@ -182,6 +182,11 @@ func (r *baseRouter) routeVia(run flows.Run, step flows.Step, category flows.Cat
 		// localize the category name
 		localizedCategory, _ := run.GetText(uuids.UUID(category.UUID()), "name", "")
 
+		// the operand isn't truncated when it's evaluated because tests need to see all of it, but like any other
+		// evaluated template, what is kept of it is.. otherwise a router that reads back its own result can double
+		// the size of the session on every step
+		operand = utils.TruncateEllipsis(operand, run.Session().Engine().Options().MaxTemplateChars)
+
 		var extraJSON json.RawMessage
 		if extra != nil {
 			extraJSON, _ = jsonx.Marshal(extra)
